@@ -4,6 +4,7 @@ import PgBifrost.Driver.BatcherMon
 import PgBifrost.Driver.Filter
 import PgBifrost.Driver.Partitioner
 import PgBifrost.Driver.Pipeline
+import PgBifrost.Driver.E2E
 import PgBifrost.Driver.Aggregator
 import PgBifrost.Driver.Client
 import PgBifrost.Driver.Rabbit
@@ -43,8 +44,10 @@ def dispatch (st : DriverState) (line : String) : DriverState × String :=
   | "batch" :: args => let (s, out) := Driver.Batcher.batchHandle st.batch args; ({ st with batch := s }, out)
   | "filter" :: args => let (s, out) := Driver.Filter.handle st.filter args; ({ st with filter := s }, out)
   | "partitioner" :: args => let (s, out) := Driver.Partitioner.handle st.partitioner args; ({ st with partitioner := s }, out)
+  | "clientload" :: _ => (st, "-")  -- measured load scenario of the client harness (C18); judged by its monitor
   | "pipeline" :: _ => (st, "-")   -- environment script of the pipeline harness; judged by pipemon/ledgermon
   | "pipemon" :: args => let (s, out) := Driver.Pipeline.handle st.pipemon args; ({ st with pipemon := s }, out)
+  | "e2e" :: args => (st, Driver.E2E.handle args)   -- expected stdout of the real binary = user's intent on the scripted changes
   | "cli" :: args => (st, Driver.Filter.cliHandle args)
   | "crc" :: args => (st, Driver.Batcher.crcHandle args)
   | "parser" :: args => let (_, out) := Driver.Parser.handle () args; (st, out)
